@@ -72,6 +72,10 @@ CHECKS = {
    text="The real service manager over real loopback TCP for server x client protocol pairs incl. chained proxies and a dead upstream: initial payload sizes around 1440 handed to the dial, first data at virtual t in {0, 249 ms, 251 ms, never} around the 250 ms wait, further writes, target behaviours (echo, banner after EOF, speak first, half-close first, sink, answer then RST), wait disabled or not, IP/domain targets, dial failures (refused, router reject, resolver failure); oracle: exactly one onward connection to the requested target, both byte streams exact, half-closes mirrored while the other direction keeps flowing, failure reported by the protocol's reply unless success had to be signalled first (then a clean close without stray bytes), API statistics equal to the bytes seen at the sockets.",
    note="Multi-user SS2022 only in the race part (real clock, 30 ms wait); exact SOCKS5 failure codes judged for a direct upstream only.",
    tech="runtime monitoring: stream-equality / half-close / reply oracle on real TCP sockets (faketime + race detector) with conservation check against the statistics API"),
+ "C18": dict(cat="exploration",
+   text="JSON documents = a valid template with every server/client family, client group, resolver and routed sets, plus one labelled mutation (or several compatible ones) per documented invariant (key lengths incl. iPSKs and store entries, SS2022 NAT timeout vs replay window incl. legacy field, MTU 1279/1280, batch sizes, channel capacity, unknown protocol/mode/policy/field, dangling and duplicate names, tunnel address forms); loaded by the real Config.Manager after strict decoding and compared with a reference validator; accepted documents (incl. legacy single-listener forms) are started and driven with a UDP and a TCP exchange through each kind of server; omitted / empty / explicit-default forms of the policy fields must select the same function.",
+   note="tproxy/redirect/TLS not generated; default NAT timeout and initial-payload wait values are exercised by C12/C13 rather than here.",
+   tech="runtime monitoring: mutation-labelled configuration generation with a reference validator + smoke traffic through accepted configurations (checkptr + faketime builds)"),
 }
 
 PENDING_DEFAULT = "check under construction in this session (design in DESIGN.md §4); not claimed until its monitor runs clean on the unchanged tree"
